@@ -112,8 +112,14 @@ def main():
     keys = sorted(set(world.property_funcs.get(pid, [])) | set(prop.get('extra_functions', [])))
     rep = report.Report(pid, tier, seed, prop)
 
+    # ---- B drivers are started first and run beside the solvers (collected below)
+    running = []
+    if not args.skip_bounded:
+        for bname in prop.get('bounded', []):
+            running.append((bname, start_bounded(bname, pid, tier, seed, scratch)))
+
     # ---- P: contract obligations
-    gens, sols, t_gen, t_solve = run_contract_obligations(keys, tier, args.nproc) if keys else ([], {}, 0, 0)
+    gens, sols, t_gen, t_solve = run_contract_obligations(keys, tier, max(2, args.nproc - len(running))) if keys else ([], {}, 0, 0)
     rep.add_contract_results(gens, sols, t_gen, t_solve, world)
 
     # ---- G: ground obligations
@@ -123,36 +129,52 @@ def main():
         rep.add_ground(gname, fn(tier))
 
     # ---- B: bounded stand-ins (run under the interpreter the baseline uses)
-    if not args.skip_bounded:
-        for bname in prop.get('bounded', []):
-            rep.add_bounded(bname, run_bounded(bname, pid, tier, seed, scratch))
+    for bname, h in running:
+        rep.add_bounded(bname, finish_bounded(h))
 
     code = rep.finish(time.time() - t_start)
     sys.exit(code)
 
 
-def run_bounded(bname, pid, tier, seed, scratch):
+def start_bounded(bname, pid, tier, seed, scratch):
     """bounded drivers are separate scripts run with /venv/bin/python (3.12, the baseline interpreter)"""
     script = os.path.join(HERE, 'bounded', bname + '.py')
-    out = os.path.join(scratch, 'bounded_%s.json' % bname)
+    out = os.path.join(scratch, 'bounded_%s_%d.json' % (bname, os.getpid()))
     if os.path.exists(out):
         os.unlink(out)
     env = dict(os.environ)
     env['PYTHONPATH'] = REPO + os.pathsep + HERE
     env['VERIF_TIER'] = tier
     env['VERIF_SEED'] = str(seed)
-    budget = 240 if tier == 'quick' else 3000
+    budget = 400 if tier == 'quick' else 3000
+    errf = open(out + '.err', 'w')
+    p = subprocess.Popen(['/venv/bin/python', script, '--property', pid, '--out', out, '--tier', tier],
+                         env=env, cwd=REPO, stdout=errf, stderr=errf, text=True)
+    return {'proc': p, 'out': out, 'budget': budget, 't0': time.time(), 'errf': errf}
+
+
+def finish_bounded(h):
+    p = h['proc']
     try:
-        p = subprocess.run(['/venv/bin/python', script, '--property', pid, '--out', out, '--tier', tier],
-                           env=env, cwd=REPO, stdout=subprocess.PIPE, stderr=subprocess.PIPE, text=True, timeout=budget)
-        if os.path.exists(out):
-            with open(out) as f:
-                r = json.load(f)
-            r['stderr_tail'] = p.stderr[-500:]
-            return r
-        return {'status': 'crash', 'detail': (p.stdout + p.stderr)[-1500:], 'evaluations': 0, 'failures': []}
+        p.wait(timeout=max(1, h['budget'] - (time.time() - h['t0'])))
     except subprocess.TimeoutExpired:
-        return {'status': 'timeout', 'detail': 'bounded driver exceeded %ds' % budget, 'evaluations': 0, 'failures': []}
+        p.kill()
+        return {'status': 'timeout', 'detail': 'bounded driver exceeded %ds' % h['budget'], 'evaluations': 0, 'failures': []}
+    finally:
+        h['errf'].close()
+    err = ''
+    try:
+        err = open(h['out'] + '.err').read()[-1500:]
+        os.unlink(h['out'] + '.err')
+    except OSError:
+        pass
+    if os.path.exists(h['out']):
+        with open(h['out']) as f:
+            r = json.load(f)
+        os.unlink(h['out'])
+        r['stderr_tail'] = err[-300:]
+        return r
+    return {'status': 'crash', 'detail': err, 'evaluations': 0, 'failures': []}
 
 
 if __name__ == '__main__':
